@@ -27,6 +27,7 @@ Inductive action :=
 | AFeedEof (f : feed)                   (* stream framing: the last bytes of the frame come back from Read together with EOF *)
 | AFeedHold (f : feed)                  (* the reader reads the frame and looks up its waiter, then is parked before the hand-over *)
 | AReaderGo                             (* the parked reader hands the frame over and reads on *)
+| AFeedRead (f : feed)                  (* the reader's Read takes the frame off the connection and is parked before it returns: no lookup yet *)
 | AFeedSplit (f : feed)                 (* stream framing: the frame arrives in two pieces; for the reader it is one frame *)
 | ASleep.                               (* datagram framing only: more than a second of real time passes (the caller re-sends) *)                        (* datagram framing only: a datagram of n < 12 bytes arrives; the reader skips it *)                      (* test hook VerifSetNextQid: forces the wire-id counter *)
 
@@ -124,7 +125,21 @@ Definition exec_action (s : st) (held : list nat) (a : action) (o : obs) : optio
              | FStray w tag => mkReply w w tag None
              end in
     match steps s [LRecv r; LLookup] with Some s1 => Some (s1, held, true) | None => None end
-  | AReaderGo => match step s LHandoff with Some s1 => Some (s1, held, true) | None => None end
+  | AFeedRead f =>
+    let r := match f with
+             | FReply c tag => let w := cwid (calls s c) in mkReply w w tag (Some c)
+             | FStray w tag => mkReply w w tag None
+             end in
+    match step s (LRecv r) with Some s1 => Some (s1, held, true) | None => None end
+  | AReaderGo =>
+    (* parked inside Read: the lookup is still to come; parked after the lookup: the hand-over only. If the
+       connection was closed under the parked reader, its next Read fails. *)
+    match steps s (match htarget s with Some _ => [LHandoff] | None => [LLookup; LHandoff] end) with
+    | Some s1 =>
+      if closed s1 then match reader_sees_close s1 with Some s2 => Some (s2, held, true) | None => None end
+      else Some (s1, held, true)
+    | None => None
+    end
   | AFeedErr => match step s LRecvErr with Some s1 => Some (s1, held, true) | None => None end
   | AClose =>
     match step s LClose with
@@ -266,7 +281,7 @@ Fixpoint tags_for (c : nat) (sc : list (action * obs)) : list N :=
   match sc with
   | [] => []
   | (AFeed (FReply c' tag), _) :: t | (AFeedEof (FReply c' tag), _) :: t | (AFeedHold (FReply c' tag), _) :: t
-  | (AFeedSplit (FReply c' tag), _) :: t =>
+  | (AFeedSplit (FReply c' tag), _) :: t | (AFeedRead (FReply c' tag), _) :: t =>
     if Nat.eqb c c' then tag :: tags_for c t else tags_for c t
   | _ :: t => tags_for c t
   end.
@@ -314,7 +329,7 @@ Fixpoint c02_walk (script : list (action * obs)) (tk : trk) (sc : list (action *
       | AStart c => if o_code o =? 0 then tk else mkTrk (c :: t_inflight tk) (t_cancelled tk) (t_owed tk) (t_pend tk)
       | ACancel c => mkTrk (t_inflight tk) (c :: t_cancelled tk) (t_owed tk) (t_pend tk)
       | AFeed (FReply c tag) | AFeedEof (FReply c tag) | AFeedSplit (FReply c tag) => c02_deliver tk c tag
-      | AFeedHold (FReply c tag) => mkTrk (t_inflight tk) (t_cancelled tk) (t_owed tk) (Some (c, tag))
+      | AFeedHold (FReply c tag) | AFeedRead (FReply c tag) => mkTrk (t_inflight tk) (t_cancelled tk) (t_owed tk) (Some (c, tag))
       | AReaderGo =>
         match t_pend tk with
         | Some (c, tag) => c02_deliver (mkTrk (t_inflight tk) (t_cancelled tk) (t_owed tk) None) c tag
@@ -429,7 +444,7 @@ Fixpoint c07_walk (strict : bool) (tk : trk7) (sc : list (action * obs)) : bool 
       | AWriteEnd c false _ => mkTrk7 (k_inflight tk) (k_waiting tk) (k_cancelled tk) true (k_replied tk)
       | ACancel c => mkTrk7 (k_inflight tk) (k_waiting tk) (c :: k_cancelled tk) (k_closed tk) (k_replied tk)
       | AFeedErr | AClose | AExpire | AFeedEof (FStray _ _) => mkTrk7 (k_inflight tk) (k_waiting tk) (k_cancelled tk) true (k_replied tk)
-      | AFeed (FReply c _) | AFeedHold (FReply c _) | AFeedSplit (FReply c _) => mkTrk7 (k_inflight tk) (remove_nat c (k_waiting tk)) (k_cancelled tk) (k_closed tk) (if mem_nat c (k_inflight tk) then c :: k_replied tk else k_replied tk)
+      | AFeed (FReply c _) | AFeedHold (FReply c _) | AFeedSplit (FReply c _) | AFeedRead (FReply c _) => mkTrk7 (k_inflight tk) (remove_nat c (k_waiting tk)) (k_cancelled tk) (k_closed tk) (if mem_nat c (k_inflight tk) then c :: k_replied tk else k_replied tk)
       | AFeedEof (FReply c _) => mkTrk7 (k_inflight tk) (remove_nat c (k_waiting tk)) (k_cancelled tk) true (if mem_nat c (k_inflight tk) then c :: k_replied tk else k_replied tk)
       | _ => tk
       end in
